@@ -1031,12 +1031,13 @@ def python_tier(chk: Check) -> None:  # noqa: C901
             ("vd-none", ObjV("Component", {"name": cname, "value_domain": None}), False, False),
             ("no-vd-attribute", ObjV("Component", {"name": cname}), False, False)):
         paths = eng.explore(f_rule_for, [reg, comp], setup=setup)
-        discharge(chk, eng, f, f"variable-rule-overrides-value-domain::{kind}",
+        ob_rf = discharge(chk, eng, f, f"variable-rule-overrides-value-domain::{kind}",
                   f"[component {kind}] after register(r1: <sig1>/VAt_1) and register(r2: valuedomain/VD_1), for every component name, value "
                   "domain and sig1: rule_for returns r1 iff (sig1 = 'variable' and name = 'VAt_1' exactly), else the value-domain rule "
                   "registered under exactly the component's value domain, else None",
                   paths, [], lambda p, a=vd_rd, b=vd_rv: which(p, Or(var_hit, And(Not(var_hit), Not(a), b)), And(Not(var_hit), a)),
                   mv[:3 if kind == "vd" else 2], rp_rule_for(kind), lambda m, p, kind=kind: f"rule_for::{kind}")
+        registry_fallback(ob_rf)
     st, tg = eng.sym_str("q.signature_type"), eng.sym_str("q.target")
     paths = eng.explore(f_existing, [reg, st, tg], setup=setup)
 
@@ -1049,11 +1050,32 @@ def python_tier(chk: Check) -> None:  # noqa: C901
         want = (varr if s == "variable" else vdr).get(t)
         return got is not want, f"real get_existing({s!r}, {t!r}) = {getattr(got, 'name', None)!r}, expected {getattr(want, 'name', None)!r}", None
     qv = Eq(st, "variable")
-    discharge(chk, eng, f"{REGF}:ViralPropagationRegistry.get_existing", "same-kind-and-exact-target",
+    ob_ge = discharge(chk, eng, f"{REGF}:ViralPropagationRegistry.get_existing", "same-kind-and-exact-target",
               "get_existing(kind, target) returns the rule registered with that kind ('variable' / anything else = value domain) under "
               "exactly that target, else None", paths, [],
               lambda p: which(p, Or(And(qv, is_var, Eq(tg, "VAt_1")), And(Not(qv), Not(is_var), Eq(tg, "VAt_1"))), And(Not(qv), Eq(tg, "VD_1"))),
               ["sig1", "q.signature_type", "q.target"], rp_existing, lambda m, p: "get_existing")
+    registry_fallback(ob_ge)
+    # get_rule_for_variable: the variable rule registered under exactly the name, else None
+    def rp_grv(model: Dict[str, str], p: PathResult) -> Any:
+        r, r1, _r2, sig = native_registry(model)
+        n = core.smt_str(model["q.variable"])
+        got, want = r.get_rule_for_variable(n), (r1 if sig == "variable" and n == "VAt_1" else None)
+        return got is not want, f"real get_rule_for_variable({n!r}) = {getattr(got, 'name', None)!r}, expected " \
+                                f"{getattr(want, 'name', None)!r}", None
+
+    try:
+        f_grv = eng.func(rel, "ViralPropagationRegistry.get_rule_for_variable")
+        vn = eng.sym_str("q.variable")
+        ob_gv = discharge(chk, eng, f"{REGF}:ViralPropagationRegistry.get_rule_for_variable", "exact-name",
+                          "get_rule_for_variable(n) returns the variable rule registered under exactly n (r1 iff sig1 = 'variable' and "
+                          "n = 'VAt_1'), else None", eng.explore(f_grv, [reg, vn], setup=setup), [],
+                          lambda p: which(p, And(is_var, Eq(vn, "VAt_1")), False), ["sig1", "q.variable"], rp_grv,
+                          lambda m, p: "get_rule_for_variable")
+        registry_fallback(ob_gv)
+        chk.under_contract(f"{REGF}:ViralPropagationRegistry.get_rule_for_variable")
+    except Exception:  # noqa: BLE001 - the helper is optional API; its absence is no verdict
+        pass
 
     # ---- the interpreter: a viral attribute of a result without a rule is rejected with 1-3-3-6 --------------------------
     f2 = f"src/vtlengine/{irel}:InterpreterAnalyzer.visit_Start"
@@ -1169,6 +1191,77 @@ def python_tier(chk: Check) -> None:  # noqa: C901
               paths, [], post_def, ["target", "default", "res0", "res1"], None, lambda m, p: "visit_ViralPropagationDef::registers",
               include_site_obligations=False)
     definition_checks(chk)
+
+
+def native_registry_search() -> Optional[Dict[str, Any]]:
+    """Concrete search on the REAL registry class for a disagreement with the contract
+         rule_for(c) = variable rule registered under EXACTLY c.name, else the value-domain rule registered under exactly
+                       c.value_domain (when the component has one), else None;
+         get_rule_for_variable(n) = variable rule registered under exactly n, else None;
+         get_existing(kind, t) = rule registered with that kind ('variable' / anything else) under exactly t, else None
+    with names chosen to separate candidate behaviours: exact name, case variants, prefix / suffix variants, two rules
+    registered in both orders, variable vs value-domain rules."""
+    import types
+    core.boot(full=True)
+    import importlib
+    m = importlib.import_module("vtlengine.ViralPropagation")
+    names = ["At_1", "at_1", "AT_1", "At_1x", "At_", "xAt_1", "VD_1", "vd_1"]
+    for t1 in names:
+        for t2 in names:
+            for k1 in ("variable", "valuedomain"):
+                for k2 in ("variable", "valuedomain"):
+                    reg = m.ViralPropagationRegistry()
+                    r1 = m.ViralPropagationRule("r1", k1, t1, [], "min", None)
+                    r2 = m.ViralPropagationRule("r2", k2, t2, [], "max", None)
+                    var: Dict[str, Any] = {}
+                    vd: Dict[str, Any] = {}
+                    for r in (r1, r2):
+                        reg.register(r)
+                        (var if r.signature_type == "variable" else vd)[r.target] = r
+                    setting = {"registered_in_order": [[k1, t1, "r1"], [k2, t2, "r2"]]}
+
+                    def bad(call: str, got: Any, want: Any) -> Dict[str, Any]:
+                        return {**setting, "call": call, "returned": getattr(got, "name", None), "contract": getattr(want, "name", None)}
+                    for n in names:
+                        got = reg.get_rule_for_variable(n) if hasattr(reg, "get_rule_for_variable") else var.get(n)
+                        if got is not var.get(n):
+                            return bad(f"get_rule_for_variable({n!r})", got, var.get(n))
+                        for dom in ["<no attribute>", None] + names:
+                            comp = types.SimpleNamespace(name=n)
+                            if dom != "<no attribute>":
+                                comp.value_domain = dom
+                            want = var.get(n)
+                            if want is None and dom not in ("<no attribute>", None):
+                                want = vd.get(dom)
+                            got = reg.rule_for(comp)
+                            if got is not want:
+                                return bad(f"rule_for(component name={n!r}, value_domain={dom!r})", got, want)
+                        for kind in ("variable", "valuedomain"):
+                            want = (var if kind == "variable" else vd).get(n)
+                            got = reg.get_existing(kind, n)
+                            if got is not want:
+                                return bad(f"get_existing({kind!r}, {n!r})", got, want)
+    return None
+
+
+def registry_fallback(ob: Obligation) -> None:
+    """An obligation on the registry that the symbolic executor could not decide (the method left the Python subset, e.g.
+    str.casefold): a concrete disagreement found on the real class decides a refutation; none leaves it undecided."""
+    if ob.status != UNDECIDED:
+        return
+    try:
+        ce = native_registry_search()
+    except Exception as e:  # noqa: BLE001
+        ob.detail += f" | native search failed: {type(e).__name__}: {e}"
+        return
+    if ce is None:
+        ob.detail += " | native search over exact / case-variant / prefix / suffix names: no disagreement (still undecided)"
+        return
+    ob.detail = f"symbolic execution: {ob.detail[:200]} | decided by the native search on the real registry class"
+    ob.status, ob.backend, ob.witness, ob.replayed = REFUTED, "native-search-real-registry", ce, True
+    ob.replay_detail = f"real ViralPropagationRegistry after register {ce['registered_in_order']}: {ce['call']} returns " \
+                       f"{ce['returned']!r}, the contract (lookup by exact name) gives {ce['contract']!r}"
+    ob.finding_key = "rule_for::lookup-not-exact"
 
 
 def native_join_refs(aliases: Sequence[str], carries: Sequence[bool]) -> Tuple[List[str], List[str]]:
@@ -1727,6 +1820,48 @@ def b_job(job: Tuple[str, bool, Any, List[int]]) -> Any:
         return [("harness", traceback.format_exc()[-600:], str(e), "")] * len(irs)
 
 
+CASE_VARIANT_DATA = {"DS_A": ("At_1", "min", [(1, 1, 4), (1, 2, 9), (2, 1, 3), (2, 2, 8)]),
+                     "DS_B": ("at_1", "max", [(1, 1, 4), (1, 2, 9), (2, 1, 3), (2, 2, 8)])}
+
+
+def b_case_variant_job(order: Sequence[int]) -> Any:
+    """Worker process: two datasets whose viral attributes differ only in case (At_1 / at_1), one rule each (min / max),
+    one aggregation over each.  Returns {result name: [(Id_1, viral value)]} or an error."""
+    try:
+        from spec import vtlref as RF
+        from vc import pipeline as P
+        from vc.e2e import err_code, norm_value
+        import pandas as pd
+        os.environ.setdefault("VTL_THREADS", "2")
+        core.boot(full=True)
+        A = P.A()
+        defs, structs, data, stmts = [], [], {}, []
+        for ds, (attr, agg, rows) in CASE_VARIANT_DATA.items():
+            defs.append(A.ViralPropagationDef(name=f"vp_{ds}", signature_type="variable", target=attr, enumerated_clauses=[],
+                                              aggregate_clause=A.AggregateVpClause(function=agg, **P.KW), default_value=None, **P.KW))
+            structs.append({"name": ds, "DataStructure": [
+                {"name": "Id_1", "type": "Integer", "role": "Identifier", "nullable": False},
+                {"name": "Id_2", "type": "Integer", "role": "Identifier", "nullable": False},
+                {"name": "Me_1", "type": "Number", "role": "Measure", "nullable": True},
+                {"name": attr, "type": "Integer", "role": "Viral Attribute", "nullable": True}]})
+            rr = [rows[i] for i in order if i < len(rows)]
+            data[ds] = pd.DataFrame({"Id_1": [r[0] for r in rr], "Id_2": [r[1] for r in rr], "Me_1": [1.0] * len(rr),
+                                     attr: [r[2] for r in rr]})
+            stmts.append(P.assign(f"R_{ds}", RF.to_ast(("agg", "sum", ("ds", ds), "group by", ["Id_1"], None)), True))
+        try:
+            res = P.api_from_ast("run")(P.start(defs + stmts), P.structures(structs), data, return_only_persistent=False)
+        except Exception as e:  # noqa: BLE001
+            return ("error", err_code(e), f"{type(e).__name__}: {str(e)[:200]}", type(e).__module__)
+        out = {}
+        for ds, (attr, _agg, _rows) in CASE_VARIANT_DATA.items():
+            df = res[f"R_{ds}"].data
+            out[ds] = None if attr not in df.columns else sorted((norm_value(r["Id_1"]), norm_value(r[attr])) for r in df.to_dict("records"))
+        return ("ok", out)
+    except Exception as e:  # noqa: BLE001
+        import traceback
+        return ("harness", traceback.format_exc()[-600:], str(e), "")
+
+
 def b_same(a: Any, b: Any) -> bool:
     if a is None or b is None:
         return a is None and b is None
@@ -1754,13 +1889,48 @@ class BTier:
         self.pool = ProcessPoolExecutor(max_workers=max(2, min(core.NCPU, 16) // 2), mp_context=mp.get_context("fork"))
         self.futs = [self.pool.submit(b_job, (kind, wn, [self.progs[i][2] for i in idx], order))
                      for kind, wn, order, idx in self.batches]
+        self.case_futs = [(o, self.pool.submit(b_case_variant_job, [i for i in o if i < 4])) for o in self.orders[:2]]
 
     def collect(self) -> None:  # noqa: C901
         chk = self.chk
         fn = "src/vtlengine/duckdb_transpiler/Transpiler/__init__.py:SQLTranspiler"
         chk.under_contract(fn, "bounded")
         results = [r for f in self.futs for r in f.result()]
+        case_results = [(o, f.result()) for o, f in self.case_futs]
         self.pool.shutdown()
+        # rules are looked up by EXACT name: viral attributes that differ only in case (in different datasets) keep their own rule
+        ob = chk.ob(f"{fn}::wiring::case-variant viral attribute names", fn,
+                    "DS_A has the viral attribute At_1 (rule: aggregate min), DS_B has at_1 (rule: aggregate max): sum(DS_A group by "
+                    "Id_1) carries the min and sum(DS_B group by Id_1) the max of each group's viral values", bounded=True)
+        ob.backend = "bounded-enumeration-real-engine"
+        ob.status, ob.detail = BOUNDED_OK, f"{len(case_results)} runs"
+        for o, res in case_results:
+            if res[0] == "harness":
+                ob.status, ob.detail = UNDECIDED, "harness error: " + res[1]
+                break
+            problem = None
+            if res[0] == "error":
+                if res[3].startswith("vtlengine") and str(res[1]).startswith(("1-", "0-")):
+                    ob.status, ob.detail = UNDECIDED, f"the engine does not accept the program ({res[1]}): nothing to compare"
+                    break
+                problem = f"run() raised {res[2]}"
+            else:
+                for ds, (attr, agg, rows) in CASE_VARIANT_DATA.items():
+                    f_agg = min if agg == "min" else max
+                    want = sorted((g, f_agg(v for a, _b, v in rows if a == g)) for g in {r[0] for r in rows})
+                    got = res[1][ds]
+                    if got is None or len(got) != len(want) or any(k1 != k2 or not b_same(v1, v2) for (k1, v1), (k2, v2) in zip(got, want)):
+                        problem = f"sum({ds} group by Id_1): {attr} = {got}, the rule `aggregate {agg}` declared for {attr} gives {want}"
+                        break
+            if problem:
+                ob.status, ob.detail = REFUTED, problem
+                ob.witness = {"program": "define viral propagation (variable At_1) aggregate min; (variable at_1) aggregate max; "
+                                         "R_DS_A <- sum(DS_A group by Id_1); R_DS_B <- sum(DS_B group by Id_1);",
+                              "data": {k: {"viral attribute": v[0], "rows (Id_1, Id_2, value)": v[2]} for k, v in CASE_VARIANT_DATA.items()},
+                              "row_order": o, "problem": problem}
+                ob.replayed, ob.replay_detail = True, "observed on the real engine (API.run below the parser): " + problem
+                ob.finding_key = "wiring::case-variant viral attribute names"
+                break
         classes: Dict[Tuple[str, str, bool], Dict[str, Any]] = {}
         unspecified: Dict[str, int] = {}
         for (cls, text, kind, wn, ir, order), res in zip(self.jobs, results):
